@@ -418,11 +418,14 @@ func (x *Extractor) cacheGet(key extractorKey) (any, bool) {
 	return v, ok
 }
 
-// cacheStoreOrLoad publishes res under every reference in refs and returns res.
-// If the first reference is already cached — another goroutine decoded the same
-// object concurrently — it stores nothing and returns the existing value, so
-// every caller ends up with one shared object. The first writer for a reference
-// wins; later racers adopt its result and discard their own.
+// cacheStoreOrLoad publishes res under every reference in refs and returns the
+// value callers must use.  refs is the chain of references that was followed to
+// reach the object.  If any reference of the chain is already cached — another
+// goroutine decoded the same object concurrently, possibly entering the chain
+// further down — the existing value is adopted: it is returned, stored under
+// the references of the chain which have no value yet, and res is discarded.
+// A cached value is never replaced, so every caller ends up with one shared
+// object no matter through which reference it arrived.
 //
 // Publishing this way (rather than waiting on an in-flight marker) keeps decode
 // deadlock-free: two goroutines decoding mutually-referential objects never wait
@@ -430,11 +433,17 @@ func (x *Extractor) cacheGet(key extractorKey) (any, bool) {
 func (x *Extractor) cacheStoreOrLoad(refs []Reference, tp reflect.Type, res any) any {
 	x.mu.Lock()
 	defer x.mu.Unlock()
-	if v, ok := x.cache[extractorKey{ref: refs[0], tp: tp}]; ok {
-		return v
+	for _, ref := range refs {
+		if v, ok := x.cache[extractorKey{ref: ref, tp: tp}]; ok {
+			res = v
+			break
+		}
 	}
 	for _, ref := range refs {
-		x.cache[extractorKey{ref: ref, tp: tp}] = res
+		key := extractorKey{ref: ref, tp: tp}
+		if _, ok := x.cache[key]; !ok {
+			x.cache[key] = res
+		}
 	}
 	return res
 }
